@@ -2947,6 +2947,7 @@ impl<'p> Evaluator<'_, 'p> {
         };
 
         let sum = sum + item_value;
+        self.check_number_value(sum, None)?;
         let index = index + 1;
         if index == array.len() {
             self.value_stack.push(ValueData::Number(sum));
@@ -3000,6 +3001,7 @@ impl<'p> Evaluator<'_, 'p> {
         };
 
         let sum = sum + item_value;
+        self.check_number_value(sum, None)?;
         let index = index + 1;
         if index == array.len() {
             self.value_stack
